@@ -364,8 +364,11 @@ class Runner:
             return rec
         props = p['props']
         rec['n_props'] = len(props)
-        failed = [q for q in props if q.get('status') != 'SUCCESS']
-        if any(q.get('status') not in ('SUCCESS', 'FAILURE') for q in props) or p['status'] == 'error':
+        failed = [q for q in props if q.get('status') == 'FAILURE']
+        undecided = [q for q in props if q.get('status') not in ('SUCCESS', 'FAILURE')]
+        if undecided and failed:
+            rec['notes'].append('%d obligations left undecided by cbmc after the failures below' % len(undecided))
+        if (undecided and not failed) or (p['status'] == 'error' and not failed):
             rec['verdict'] = 'solver-error'
             rec['notes'].append('cbmc status=%s; %s' % (p['status'], '; '.join(p['errors'])[:600]))
             return rec
